@@ -27,6 +27,7 @@ def parseAct (s : String) : Option Act :=
   | ['n'] => some .next
   | ['c'] => some .cancel
   | ['m'] => some .map
+  | ['j'] => some .map     -- a refused Hijack()/Push(): nothing is sent, no state changes
   | ['h'] => some .hookPanic
   | ['p', 'S'] => some (.panic .str)
   | ['p', 'E'] => some (.panic .err)
